@@ -39,6 +39,13 @@ def main(c):
     if not c.quick:
         seq = [65537] * 126 + [32] * 6 + [131073] + [32] * 3
         lines.append("drbg %s %s" % (",".join(map(str, seq)), ent(12)))
+    # process life cycle: descriptors closed and re-used between two reseeds; random bytes asked for by an exit handler registered
+    # before the generator was first used
+    for _ in range(c.pick(2, 12)):
+        seq = [32] * rnd.choice([3, 100, 255]) + [-1] + [32] * 300
+        lines.append("drbg %s %s" % (",".join(map(str, seq)), ent(12)))
+        seq = [-2] + [rnd.choice([1, 32, 100]) for _ in range(rnd.choice([1, 5, 256, 300]))]
+        lines.append("drbg %s %s" % (",".join(map(str, seq)), ent(12)))
     # short reads in the middle of a seed
     for _ in range(c.pick(5, 50)):
         lines.append("drbg %s %s" % (",".join(["32"] * 260), ",".join(rnd.choice(["s1", "s7", "s31", "s47", "f"]) for _ in range(30))))
